@@ -436,7 +436,8 @@ class BaseParser:
         for key, value in data.items():
             key = str(key)
             field = self.get_field(key)
-            if not field:
+            if not field or field.positional_only:
+                # a positional-only param cannot be passed by keyword: its name is an ordinary additional key
                 add_value = self.parse_addition(key, value, context=context)
                 if not unprovided(add_value):
                     addition[key] = add_value
